@@ -73,6 +73,18 @@ CHECKS["C15"] = dict(
     technique="Lean 4 proof over a hand-written model (Int/BitVec arithmetic) + correspondence with the implementation",
     design="§4 C15", note=NOTE_BASE + " GMP numeral parsing and mpz arithmetic are modelled, not verified.")
 
+CHECKS["C09"] = dict(
+    text=("Machine-checked theorems (Props/C09.lean) about Gen/Ext.lean, regenerated from goldilocks_cubic_extension.hpp "
+          "INCLUDING a generated model for every aliased call pattern, and about hand models of inv/div/mulScalar/batchInverse: "
+          "every add/sub/neg/mul/square overload (extension, base element, integer, pointer forms) returns the exact coefficients "
+          "in F_p[x]/(x^3-x-1) for all operand representations, with outputs aliasing inputs; isOne holds exactly for (1,0,0) "
+          "(was false on the pinned tree: D3, found with a replay and fixed); div and mulScalar(string) exact; inv: exact "
+          "characterisation of refusal (t(a)=0) and a·inv(a)=1 whenever it returns. PARTIAL: 'a≠0 ⇒ t(a)≠0' (irreducibility of "
+          "x^3-x-1 over F_p) and the batchInverse induction are not proved; both are covered by the correspondence run "
+          "(inv on non-zero elements, batchInverse lengths 1..66, every output checked against the spec)."),
+    technique="Lean 4 proof (ZMod p, ring) over a translated model incl. aliasing variants + correspondence for the hand-modelled parts",
+    design="§4 C09", note=NOTE_BASE)
+
 NOT_YET = {
 }
 
